@@ -54,7 +54,7 @@ def r181_182(db, ctx):
             ctx.fail('R18.1', f, 'accessor', 'reason=unrecognised-shape: no element accessor call')
             continue
         abi, at = acc
-        used = norm(R.operand(at['args'][1]))
+        used = norm(R.at(abi).operand(at['args'][1]))      # recovered where it is used: sees through `helper(..)?` plumbing (one reaching definition)
         rels = G.relations(f, R, abi)
         cu = X.canon(used)
         upper = [r for r in rels if (r[0] == 'lt' and X.canon(norm(r[1])) == cu) or (r[0] == 'gt' and X.canon(norm(r[2])) == cu)]
